@@ -66,7 +66,8 @@ TRIGGERS = ['kw_role_mixed', 'pass_twice', 'ep_local_clash']
 SIZES = {'fill': (0, 2), 'nmatch': (1, 3)}
 SIZE_MIN = {'fill': 0, 'nmatch': 1}
 STREAMS = ['kernel', 'mid0', 'mid1', 'leaf0', 'dic', 'inputs', 'layout']
-OPTS = {'replace_by_value': [False, True], 'abort': ['error_stop', 'default'], 'roles': ['A', 'B', 'F', 'AB', 'AF', 'BF', 'ABF']}
+OPTS = {'replace_by_value': [False, True], 'abort': ['error_stop', 'default'], 'roles': ['A', 'B', 'F', 'AB', 'AF', 'BF', 'ABF'],
+        'succession': [False, False, True]}   # succession: one transformation per role group, applied in succession with `key`
 
 ROLE_NAMES = {'A': ['na', 'ka', 'ma', 'ja'], 'B': ['nb', 'kb', 'mb', 'jb'], 'F': ['kf', 'jf', 'mf', 'lf']}
 PROF = dict(GI.BASE_PROF, sections=False, reductions=False, if1=True, max_depth=1)
@@ -336,15 +337,17 @@ def build(spec):
     # dic2p and entry points
     if ep == 'mid':
         entry_points = [f'mid{k}' for k in range(nm)]
-        dic = {}
+        dic, dic_roles = {}, {}
         for k in range(nm):
             for r in roles_p:
                 if r in mid_roles[k]:
                     dic[mid_names[k][r]] = values[r]
+                    dic_roles[mid_names[k][r]] = r
         guarded = sorted({r for k in range(nm) for r in roles_p if r in mid_roles[k]})
     else:
         entry_points = None if ep == 'driver' else ['kernel']
         dic = {ROLE_NAMES[r][0]: values[r] for r in roles_p}
+        dic_roles = {ROLE_NAMES[r][0]: r for r in roles_p}
         guarded = sorted(roles_p)
 
     routines = []
@@ -427,20 +430,27 @@ def build(spec):
         b.use('case_' + layout['idcase'])
         if layout['idcase'] == 'upper':
             dic = {k.upper(): v for k, v in dic.items()}
+            dic_roles = {k.upper(): v for k, v in dic_roles.items()}
     entry_args = [decl('n', 'int', intent='in')]
     return {'files': [f], 'entry': {'module': 'pmod', 'name': 'kernel', 'args': entry_args},
-            'inputs': inputs, 'layout': layout, 'dic2p': dic, 'entry_points': entry_points,
+            'inputs': inputs, 'layout': layout, 'dic2p': dic, 'dic_roles': dic_roles, 'entry_points': entry_points,
             'meta': {'features': sorted(b.features), 'sites': [], 'guarded': guarded,
                      'triggers': [t for t in TRIGGERS if t in b.triggers],
                      'routines': [r['name'] for r in routines]}}
 
 
+def vector_groups(case):
+    """runs of the program: all matching vectors in one run, every non-matching vector in a run of its own"""
+    m = [i for i, v in enumerate(case['inputs']) if v['match']]
+    return ([m] if m else []) + [[i] for i, v in enumerate(case['inputs']) if not v['match']]
+
+
 def make_driver(case):
-    """program main: reads the vector number from stdin, runs that vector only"""
+    """program main: reads the number of vectors and the vector numbers from stdin, runs these vectors only"""
     L = ['program main', '  use pmod, only: kernel', '  implicit none',
-         '  integer :: iv, n, na, nb, kf, xi0, yi0', '  real(kind=8) :: xr0, yr0',
+         '  integer :: nv, kv, iv, n, na, nb, kf, xi0, yi0', '  real(kind=8) :: xr0, yr0',
          '  integer, allocatable :: c(:,:)', '  real(kind=8), allocatable :: d(:)',
-         '  read(*,*) iv', '  select case (iv)']
+         '  read(*,*) nv', '  do kv = 1, nv', '  read(*,*) iv', '  select case (iv)']
     for iv, v in enumerate(case['inputs']):
         L.append(f'  case ({iv})')
         L.append(f"    n = {v['n']}; na = {v['na']}; nb = {v['nb']}; kf = {v['kf']}")
@@ -451,5 +461,6 @@ def make_driver(case):
     L += ['  end select', "  print '(A,I0)', 'vector ', iv",
           '  call kernel(n, na, nb, kf, xi0, xr0, yi0, yr0, c, d)',
           "  print '(A,*(1X,I0))', 'yi0', yi0", "  print '(A,*(1X,ES24.16E3))', 'yr0', yr0",
-          "  print '(A,*(1X,I0))', 'c', c", "  print '(A,*(1X,ES24.16E3))', 'd', d", 'end program main']
+          "  print '(A,*(1X,I0))', 'c', c", "  print '(A,*(1X,ES24.16E3))', 'd', d",
+          '  deallocate(c, d)', '  end do', 'end program main']
     return '\n'.join(L) + '\n'
